@@ -5,11 +5,12 @@ through a history (fire input i / cancel the aggregate / cancel input i) vs the 
 `TwistedModel/Defer/Aggregate.lean`, plus an oracle that evaluates the clauses of the property
 statement on what the real objects did, from the observed firing order (independent of the model).
 """
+import collections.abc
 import itertools
 import re
 
 from twisted.internet.defer import (AlreadyCalledError, CancelledError, Deferred, DeferredList, FailureGroup,
-                                    FirstError, gatherResults, race)
+                                    FirstError, gatherResults, getDebugging, race, setDebugging)
 from twisted.logger import globalLogBeginner
 from twisted.python.failure import Failure
 
@@ -19,22 +20,40 @@ except Exception:  # pragma: no cover
     pass
 
 HEADLINE = "TwistedProps.C04.dl_fires_spec"
-RULE = ("aggregate kind {DeferredList x 8 flag combinations, gatherResults x consumeErrors, race} x n inputs, each unfired "
-        "or already fired (success/failure) at construction and with a canceller kind {none, returns, fires callback, fires "
-        "errback, raises} x a history over {fire input i with success/failure, cancel the aggregate, cancel input i}. "
+RULE = ("aggregate kind {DeferredList x 8 flag combinations, gatherResults x consumeErrors, race} x n inputs, each unfired, "
+        "already fired (success/failure) or called-but-waiting on an inner Deferred (`w`) at construction and with a "
+        "canceller kind {none, returns, fires callback, fires errback, raises an Exception, raises a BaseException outside "
+        "Exception} x the container the inputs are handed over in {the caller's list, tuple, one-shot generator (not race), "
+        "a Sequence that is a live view of the caller's list} x a history over {fire input i with success/failure, cancel "
+        "the aggregate, cancel input i, the caller mutates the list it passed: clear / pop / append / insert at 0 / reverse} "
+        "x Deferred debugging on/off x how the flags are passed {all by keyword, positionally, only the set ones so that "
+        "the defaults are exercised} (rotating / random). "
         "quick: EVERY firing permutation x outcome assignment x pre-fired subset x flag combination for n <= 3 "
-        "(canceller-less), cancellation of the aggregate inserted at every prefix of every schedule for n <= 2 with each "
-        "canceller kind on each input, + 2500 random histories with n <= 12 over all canceller kinds; thorough: the same for "
-        "n <= 4 (n <= 5 for race/gather), cancellation for n <= 3, + 40000 random; "
-        "distinct = (kind, flags, n, #pre-fired, shape of the aggregate result, canceller kinds present, cancel ops present)")
+        "(canceller-less; container kind rotating; each followed by a twin with a rotating non-empty subset of the unfired "
+        "inputs waiting), cancellation of the aggregate inserted at every prefix of every schedule for n <= 2 with each "
+        "canceller kind on each input (rotating: that input waiting 1 in 3, a mutation of the passed list before the "
+        "cancellation 5 in 7, the container kind), + 2500 random histories with n <= 12 over all of the above (15% waiting "
+        "inputs, 1/6 BaseException cancellers, half of the list/view cases mutated, 10% with Deferred debugging on); "
+        "thorough: the same for n <= 4 (n <= 5 for race/gather), cancellation for n <= 3, + 40000 random; "
+        "distinct = (kind, flags, n, #pre-fired, any waiting, shape of the aggregate result, canceller kinds present, "
+        "op kinds present, container kind, call style, debugging)")
 ASSUMES = [
-    "the inputs are distinct Deferreds whose first callback is the aggregate's (no callbacks added before, no input given twice)",
-    "inputs fire with plain values / Failures, never with another Deferred; no pause()/unpause(); Deferred.debug off",
-    "cancellers are one of: absent, returns, fires callback(v), fires errback(e), raises an Exception subclass; a canceller only touches its own Deferred",
-    "the user does not call callback/errback on the aggregate itself",
+    "the inputs are distinct Deferreds; the only callback ahead of the aggregate's is the probe's pass-through (for a waiting "
+    "input also the one that returned the inner Deferred); no input given twice",
+    "the aggregate's callbacks only ever see plain values / Failures; an input may have been fired before construction and be "
+    "waiting on an inner unfired Deferred (it then delivers when the inner one fires); no explicit pause()/unpause()",
+    "cancellers are one of: absent, returns, fires callback(v), fires errback(e), raises an Exception subclass, raises a "
+    "BaseException subclass outside Exception; a canceller only touches its own Deferred",
+    "the user does not call callback/errback on the aggregate itself; callbacks added to the aggregate or to the inputs do "
+    "not call back into the aggregate or the inputs (no user-level re-entrancy; re-entrancy through cancellers IS covered)",
+    "race is given a Sequence (list, tuple, or a Sequence view), DeferredList / gatherResults any Iterable incl. one-shot ones",
 ]
 TRUSTED = ["the probe callbacks (a pass-through first callback on every input recording the firing order; "
-           "an addBoth recorder added after the aggregate exists) and the cancel()-counting Deferred subclass"]
+           "an addBoth recorder added after the aggregate exists; an addBoth recorder on the aggregate, which also marks the "
+           "moment of its firing in the firing order) and the cancel()-counting Deferred subclass",
+           "the identification, made in the Lean driver, of a called-but-waiting input with an unfired one whose canceller is "
+           "the inner Deferred's, and of a canceller raising outside Exception with one raising an Exception (both tied "
+           "differentially: the implementation really runs the chained / BaseException variants)"]
 MANIFEST = {
     "text": "Lean theorems (TwistedProps/C04.lean) over ALL input lists (each input unfired or pre-fired, any canceller kind), "
             "flag combinations and histories of any length (invariants of every reachable state of the model). DeferredList / "
@@ -52,7 +71,11 @@ MANIFEST = {
             "cancelling an unfired race calls cancel() on every input exactly once from the race's canceller (fired inputs "
             "too, past raising cancellers too), plus the one cancel() each non-winner gets from succeeded when a canceller "
             "turns its input into the first success during that cancellation. "
-            "Model tied to defer.py by differential runs incl. exhaustive small schedules.",
+            "Model tied to defer.py by differential runs incl. exhaustive small schedules; the runs also vary what the model "
+            "abstracts from and the aggregate must be indifferent to: the container the inputs arrive in (list / tuple / "
+            "one-shot generator / live Sequence view), later mutation of that list by the caller, inputs that are called "
+            "but still waiting on an inner Deferred, cancellers raising outside the Exception hierarchy, Deferred debugging; "
+            "the oracle additionally checks that DeferredList / gatherResults fire AT the triggering delivery.",
     "note": "trusts Lean kernel, the hand model of DeferredList/_cbDeferred/cancel, gatherResults, race and of the part of "
             "Deferred they use on their inputs (differentially tied); race theorems complete (race_first_success, "
             "race_all_fail, race_cancel_unfired_cancels_inputs)",
@@ -60,7 +83,10 @@ MANIFEST = {
     "design_ref": "DESIGN.md §7 C04",
 }
 
-CANCS = ["n", "p", "k7", "f3", "r"]
+CANCS = ["n", "p", "k7", "f3", "r", "R"]
+CALLS = ["kw", "min", "pos"]
+SEQS = {"dl": ["list", "gen", "tuple", "view"], "gather": ["list", "gen", "tuple", "view"], "race": ["list", "view", "tuple"]}
+MUTS = ["Mc", "Mp", "Ma", "Mi", "Mr"]
 
 
 class UserError(Exception):
@@ -69,6 +95,26 @@ class UserError(Exception):
 
 class CancellerBoom(Exception):
     pass
+
+
+class CancellerBoomBase(BaseException):
+    """raised by canceller kind `R`: outside the `Exception` hierarchy (like KeyboardInterrupt / SystemExit / GeneratorExit)"""
+
+
+_BOOMS = (CancellerBoom, CancellerBoomBase)
+
+
+class LiveSeq(collections.abc.Sequence):
+    """a `Sequence` that is a live view of a list its owner keeps (and may go on mutating)"""
+
+    def __init__(self, backing):
+        self._backing = backing
+
+    def __getitem__(self, i):
+        return self._backing[i]
+
+    def __len__(self):
+        return len(self._backing)
 
 
 class CountingDeferred(Deferred):
@@ -126,7 +172,11 @@ def show_agg(kind, r):
     return "X" + type(r).__name__
 
 
-def _mk_input(i, canc, trace, counts):
+def _mk_input(i, pre, canc, trace, counts):
+    """-> (the input Deferred handed to the aggregate, the Deferred that `F<i>…` fires).  They are the same object
+    unless pre == "w": then the input has ALREADY been fired (`.called` is true) but its first callback returned the
+    still unfired inner Deferred (which carries the canceller), so the input is waiting on it: the aggregate's
+    callback has not run, `.result` is the inner Deferred, `cancel()` is forwarded to the inner Deferred."""
     def wrap(body):
         def canceller(d):
             counts[i] += 1
@@ -136,18 +186,24 @@ def _mk_input(i, canc, trace, counts):
     def boom(d):
         raise CancellerBoom()
 
+    def boom_base(d):
+        raise CancellerBoomBase()
+
+    cls = Deferred if pre == "w" else CountingDeferred
     if canc == "n":
-        d = CountingDeferred()
+        d = cls()
     elif canc == "p":
-        d = CountingDeferred(wrap(lambda d: None))
+        d = cls(wrap(lambda d: None))
     elif canc == "r":
-        d = CountingDeferred(wrap(boom))
+        d = cls(wrap(boom))
+    elif canc == "R":
+        d = cls(wrap(boom_base))
     elif canc[0] == "k":
         v = int(canc[1:])
-        d = CountingDeferred(wrap(lambda d: d.callback(v)))
+        d = cls(wrap(lambda d: d.callback(v)))
     elif canc[0] == "f":
         e = int(canc[1:])
-        d = CountingDeferred(wrap(lambda d: d.errback(UserError(e))))
+        d = cls(wrap(lambda d: d.errback(UserError(e))))
     else:
         raise ValueError(canc)
 
@@ -155,8 +211,14 @@ def _mk_input(i, canc, trace, counts):
         trace.append(f"{i}={show(r)}")
         return r
 
+    if pre == "w":
+        inner, d = d, CountingDeferred()
+        d.addCallback(lambda _: inner)
+        d.addBoth(passthru)
+        d.callback(None)
+        return d, inner
     d.addBoth(passthru)
-    return d
+    return d, d
 
 
 def _fire(d, tok):
@@ -173,23 +235,68 @@ _OP = re.compile(r"^F(\d+)([ve]\d+)$")
 
 
 def run_impl(c):
+    if not c.get("dbg"):
+        return _run_impl(c)
+    was = getDebugging()
+    setDebugging(True)
+    try:
+        return _run_impl(c)
+    finally:
+        setDebugging(was)
+
+
+def _run_impl(c):
     kind, ins, ops = c["kind"], c["inputs"], c["ops"]
     n = len(ins)
     trace, counts, seen, aggres = [], [0] * n, [None] * n, []
-    ds = [_mk_input(i, canc, trace, counts) for i, (pre, canc) in enumerate(ins)]
+    made = [_mk_input(i, pre, canc, trace, counts) for i, (pre, canc) in enumerate(ins)]
+    ds, targets = [m[0] for m in made], [m[1] for m in made]
     for d, (pre, canc) in zip(ds, ins):
-        if pre != "u":
+        if pre not in ("u", "w"):
             _fire(d, pre)
-    if kind == "dl":
-        f = c["flags"]
-        agg = DeferredList(ds, fireOnOneCallback=f[0] == "1", fireOnOneErrback=f[1] == "1", consumeErrors=f[2] == "1")
-    elif kind == "gather":
-        agg = gatherResults(ds, consumeErrors=c["flags"] == "1")
+    # how the caller hands the inputs over: its own list (which it may go on mutating: ops `M…`), a tuple, a one-shot
+    # generator (DeferredList / gatherResults take any Iterable), or a Sequence that is a live view of the caller's list
+    seq = c.get("seq", "list")
+    backing = list(ds)
+    if seq == "list":
+        arg = backing
+    elif seq == "tuple":
+        arg = tuple(backing)
+    elif seq == "gen":
+        arg = (d for d in backing)
+    elif seq == "view":
+        arg = LiveSeq(backing)
     else:
-        agg = race(ds)
+        raise ValueError(seq)
+    # how the flags are passed: every one by keyword / positionally / only the ones that are set (defaults for the rest)
+    call = c.get("call", "kw")
+    if kind == "dl":
+        foc, foe, ce = (b == "1" for b in c["flags"])
+        if call == "kw":
+            agg = DeferredList(arg, fireOnOneCallback=foc, fireOnOneErrback=foe, consumeErrors=ce)
+        elif call == "pos":
+            agg = DeferredList(arg, foc, foe, ce)
+        elif call == "min":
+            kw = {k: True for k, v in (("fireOnOneCallback", foc), ("fireOnOneErrback", foe), ("consumeErrors", ce)) if v}
+            agg = DeferredList(arg, **kw)
+        else:
+            raise ValueError(call)
+    elif kind == "gather":
+        ce = c["flags"] == "1"
+        if call == "kw":
+            agg = gatherResults(arg, consumeErrors=ce)
+        elif call == "pos":
+            agg = gatherResults(arg, ce)
+        elif call == "min":
+            agg = gatherResults(arg, consumeErrors=True) if ce else gatherResults(arg)
+        else:
+            raise ValueError(call)
+    else:
+        agg = race(arg)
 
     def rec_agg(r):
         aggres.append(show_agg(kind, r))
+        trace.append("A")
 
     agg.addBoth(rec_agg)
 
@@ -206,26 +313,44 @@ def run_impl(c):
             trace.append("C")
             try:
                 agg.cancel()
-            except CancellerBoom:
+            except _BOOMS:
                 trace.append("!")
             trace.append("c")
         elif op[0] == "I":
             try:
                 ds[int(op[1:])].cancel()
-            except CancellerBoom:
+            except _BOOMS:
                 pass
+        elif op[0] == "M":                 # the caller mutates the list it passed (no effect on tuple / generator)
+            if op == "Mc":
+                del backing[:]
+            elif op == "Mp":
+                if backing:
+                    backing.pop()
+            elif op == "Ma":
+                backing.append(Deferred())
+            elif op == "Mi":
+                backing.insert(0, Deferred())
+            elif op == "Mr":
+                backing.reverse()
+            else:
+                raise ValueError(op)
         else:
             m = _OP.match(op)
-            _fire(ds[int(m.group(1))], m.group(2))
+            _fire(targets[int(m.group(1))], m.group(2))
     if c.get("obs") != "early":
         add_recorders()
-    inp = ";".join(f"{seen[i] if ds[i].called else 'u'}/{ds[i].ncancel}/{counts[i]}" for i in range(n)) or "-"
+    # "fired" = its callbacks have run (for a waiting input `.called` is true all along)
+    inp = ";".join(f"{seen[i] if seen[i] is not None else 'u'}/{ds[i].ncancel}/{counts[i]}" for i in range(n)) or "-"
     return f"agg={','.join(aggres) or '-'} log={','.join(trace) or '-'} in={inp}"
 
 
 def model_line(c):
+    """the model has no notion of the container the inputs came in, of the caller's later mutations of it (ops `M…`
+    are dropped: the aggregate must be indifferent to them) nor of Deferred debugging; `w` (called-but-waiting) and `R`
+    (canceller raising outside Exception) are passed on and decoded by the driver as unfired / raises"""
     ins = ";".join(f"{p}:{k}" for p, k in c["inputs"]) or "-"
-    ops = ",".join(c["ops"]) or "-"
+    ops = ",".join(o for o in c["ops"] if o[0] != "M") or "-"
     if c["kind"] == "race":
         return f"race {ins} {ops}"
     return f"{c['kind']} {c['flags']} {ins} {ops}"
@@ -251,7 +376,7 @@ def compare(c, io, mo):
     a, b = _parse(io), _parse(mo)
     if a is None or b is None:
         return io == mo
-    la = [t for t in a[1] if t not in ("C", "c", "!")]
+    la = [t for t in a[1] if t not in ("C", "c", "!", "A")]
     if c["kind"] == "race":
         return a[0] == b[0] and a[2] == b[2] and sorted(la) == sorted(b[1])
     return a[0] == b[0] and la == b[1] and a[2] == b[2]
@@ -277,7 +402,14 @@ def oracle(c, out):
     ce = (kind == "dl" and flags[2] == "1") or (kind == "gather" and flags == "1")
     fired, winner, order, cancels = None, None, {}, [0] * n
     escaped = False
+    # DeferredList / gatherResults fire AT the triggering delivery: between it and the aggregate's firing (`A`) no
+    # other input may be delivered, except that inputs fired before construction were all delivered to the probe first
+    nprefired = sum(1 for q, _ in c["inputs"] if q not in ("u", "w"))
+    due_at, fired_at = None, None
     for ev in log:
+        if ev == "A":
+            fired_at = len(order)
+            continue
         if ev == "C":
             if fired is None:
                 cancels = [k + 1 for k in cancels]     # cancelling an unfired aggregate cancels its inputs
@@ -313,16 +445,20 @@ def oracle(c, out):
                     fired = "V[" + ";".join(order[j] for j in range(n)) + "]"
                 else:
                     fired = "L[" + ";".join(("0" if _is_fail(order[j]) else "1") + order[j] for j in range(n)) + "]"
+            if fired is not None:
+                due_at = max(len(order), nprefired)
     for op in c["ops"]:
         if op[0] == "I":
             cancels[int(op[1:])] += 1
-    rk = any(k == "r" for _, k in c["inputs"])
+    rk = any(k in ("r", "R") for _, k in c["inputs"])
     sfx = "-raising-canceller" if rk else ""
     if escaped:
         return {"key": f"{kind}-cancel-raised{sfx}", "detail": f"aggregate.cancel() let an exception escape: {out[:300]}"}
     exp = [fired] if fired else []
     if agg != exp:
         return {"key": f"{kind}-result{sfx}", "detail": f"aggregate fired {agg} expected {exp}; firing order {log}"}
+    if kind != "race" and fired is not None and fired_at != due_at:
+        return {"key": f"{kind}-firing-time{sfx}", "detail": f"aggregate fired after {fired_at} deliveries, due after {due_at}; {out[:300]}"}
     got = [int(x[1]) for x in ins]
     if got != cancels:
         return {"key": f"{kind}-cancel-count{sfx}", "detail": f"cancel() calls per input {got} expected {cancels}; {out[:300]}"}
@@ -343,10 +479,12 @@ def tag(c, out):
     shape = "?"
     if p:
         shape = (p[0][0].split("(")[0].split("[")[0] if p[0] else "none")
-    pre = sum(1 for q, _ in c["inputs"] if q != "u")
+    pre = sum(1 for q, _ in c["inputs"] if q not in ("u", "w"))
+    wait = "w" if any(q == "w" for q, _ in c["inputs"]) else ""
     cs = "".join(sorted({k[0] for _, k in c["inputs"]}))
     ops = "".join(sorted({o[0] for o in c["ops"]}))
-    return f"{c['kind']}:{c.get('flags', '')}:n{len(c['inputs'])}:p{pre}:{shape}:{cs}:{ops}"
+    return (f"{c['kind']}:{c.get('flags', '')}:n{len(c['inputs'])}:p{pre}{wait}:{shape}:{cs}:{ops}:"
+            f"{c.get('seq', 'list')}:{c.get('call', 'kw')}{':dbg' if c.get('dbg') else ''}")
 
 
 def corpus():
@@ -373,11 +511,34 @@ def corpus():
         {"kind": "race", "inputs": [["u", "r"]], "ops": ["C", "F0e1"], "obs": "late"},
         {"kind": "race", "inputs": [u, ["u", "k7"], u], "ops": ["C"], "obs": "late"},
         {"kind": "race", "inputs": [u, u, u], "ops": ["F1e1", "F2e2", "F0e0"], "obs": "late"},
+        # witnesses of the blind spots found by the white-box mutation audit (harness/mutants/C04): one-shot iterable,
+        # the caller mutating the list it passed, cancellers raising outside Exception, called-but-waiting inputs
+        {"kind": "dl", "flags": "000", "inputs": [u, u], "ops": ["F0v1", "F1v2"], "obs": "late", "seq": "gen"},
+        {"kind": "gather", "flags": "0", "inputs": [u, u], "ops": ["F1v1", "F0v2"], "obs": "late", "seq": "gen"},
+        {"kind": "dl", "flags": "000", "inputs": [["u", "p"], ["u", "p"]], "ops": ["Mc", "C"], "obs": "late", "seq": "list"},
+        {"kind": "dl", "flags": "000", "inputs": [["u", "p"], ["u", "p"]], "ops": ["Mi", "C"], "obs": "late", "seq": "list"},
+        {"kind": "dl", "flags": "000", "inputs": [["u", "R"], ["u", "p"]], "ops": ["C"], "obs": "late"},
+        {"kind": "gather", "flags": "1", "inputs": [["u", "R"], ["u", "p"]], "ops": ["C"], "obs": "late", "seq": "tuple"},
+        {"kind": "race", "inputs": [u, ["u", "R"], ["u", "p"]], "ops": ["F0v5"], "obs": "late"},
+        {"kind": "race", "inputs": [["u", "R"], ["u", "p"]], "ops": ["C"], "obs": "late", "seq": "view"},
+        {"kind": "race", "inputs": [["u", "p"], ["u", "p"]], "ops": ["Mp", "F0e1"], "obs": "late", "seq": "list"},
+        {"kind": "race", "inputs": [["u", "p"], ["u", "p"], ["u", "p"]], "ops": ["Mr", "F0v1"], "obs": "late", "seq": "view"},
+        {"kind": "race", "inputs": [["u", "p"], ["u", "p"]], "ops": ["Mc", "F1v1"], "obs": "late", "seq": "list"},
+        {"kind": "gather", "flags": "0", "inputs": [["w", "n"], ["v2", "n"]], "ops": ["F0v1"], "obs": "late"},
+        {"kind": "gather", "flags": "0", "inputs": [u, u], "ops": ["F0e1", "F1e2"], "obs": "late", "call": "min"},
+        {"kind": "dl", "flags": "000", "inputs": [u, u], "ops": ["F0e1", "F1v2"], "obs": "early", "call": "min"},
+        {"kind": "dl", "flags": "011", "inputs": [u, u], "ops": ["F0e1", "F1v2"], "obs": "early", "call": "pos"},
+        {"kind": "dl", "flags": "000", "inputs": [["w", "p"], u], "ops": ["C"], "obs": "late"},
+        {"kind": "race", "inputs": [u, ["w", "p"]], "ops": ["F0v1"], "obs": "late", "dbg": 1},
+        {"kind": "race", "inputs": [["w", "k7"], ["w", "n"], u], "ops": ["C"], "obs": "early", "seq": "tuple"},
     ]
 
 
-def _exhaustive(nmax_dl, nmax_other):
-    """every permutation x outcome x pre-fired subset x flags (canceller-less inputs)"""
+def _exhaustive(nmax_dl, nmax_other, nmax_wait):
+    """every permutation x outcome x pre-fired subset x flags (canceller-less inputs); the container kind rotates over
+    the cases; for n <= nmax_wait each case is followed by a twin in which a (rotating, non-empty) subset of the
+    unfired inputs is called-but-waiting, passed in another container kind"""
+    k = 0
     for kind, flagset, nmax in (("dl", ["".join(b) for b in itertools.product("01", repeat=3)], nmax_dl),
                                 ("gather", ["0", "1"], nmax_other), ("race", [""], nmax_other)):
         for n in range(1, nmax + 1):
@@ -388,14 +549,29 @@ def _exhaustive(nmax_dl, nmax_other):
                     for perm in itertools.permutations(rest):
                         ops = [f"F{i}{outcome[i]}{i + 1}" for i in perm]
                         for fl in flagset:
-                            c = {"kind": kind, "inputs": ins, "ops": ops, "obs": "late" if (n + len(ops)) % 2 else "early"}
+                            k += 1
+                            seqs = SEQS[kind]
+                            c = {"kind": kind, "inputs": ins, "ops": ops, "obs": "late" if (n + len(ops)) % 2 else "early",
+                                 "seq": seqs[k % len(seqs)]}
                             if kind != "race":
                                 c["flags"] = fl
+                                c["call"] = CALLS[k % 3]
                             yield c
+                            if rest and n <= nmax_wait:
+                                mask = (k // len(seqs)) % (2 ** len(rest) - 1) + 1
+                                waiting = {i for b, i in enumerate(rest) if mask >> b & 1}
+                                ins2 = [["w", "n"] if i in waiting else list(x) for i, x in enumerate(ins)]
+                                c2 = dict(c, inputs=ins2, seq=seqs[(k + 1) % len(seqs)])
+                                if kind != "race":
+                                    c2["call"] = CALLS[(k + 1) % 3]
+                                yield c2
 
 
 def _cancel_everywhere(nmax):
-    """cancellation of the aggregate inserted at every prefix of every schedule, every canceller kind on one input"""
+    """cancellation of the aggregate inserted at every prefix of every schedule, every canceller kind on one input;
+    rotating over the cases: the container kind, that input called-but-waiting (1 in 3), and (5 in 7, container a
+    list or a live view) a mutation of the passed list by the caller somewhere before the cancellation"""
+    k = 0
     for kind, flagset in (("dl", ["000", "100", "010", "111"]), ("gather", ["0"]), ("race", [""])):
         for n in range(1, nmax + 1):
             for outcome in itertools.product("ve", repeat=n):
@@ -404,11 +580,20 @@ def _cancel_everywhere(nmax):
                     for cut in range(n + 1):
                         for ck in CANCS:
                             for where in range(n):
-                                ins = [["u", ck if j == where else "p"] for j in range(n)]
                                 for fl in flagset:
-                                    c = {"kind": kind, "inputs": ins, "ops": fires[:cut] + ["C"] + fires[cut:], "obs": "late"}
+                                    k += 1
+                                    ins = [["w" if k % 3 == 0 else "u", ck] if j == where else ["u", "p"] for j in range(n)]
+                                    ops = fires[:cut] + ["C"] + fires[cut:]
+                                    mut = (MUTS + [None, None])[k % 7]
+                                    if mut:
+                                        ops.insert((k // 7) % (cut + 1), mut)
+                                        seq = ("list", "view")[(k // 7) % 2]
+                                    else:
+                                        seq = SEQS[kind][(k // 7) % len(SEQS[kind])]
+                                    c = {"kind": kind, "inputs": ins, "ops": ops, "obs": "late", "seq": seq}
                                     if kind != "race":
                                         c["flags"] = fl
+                                        c["call"] = CALLS[(k // 2) % 3]
                                     yield c
 
 
@@ -418,7 +603,8 @@ def _random_case(rng, nmax=12):
     plain = rng.random() < 0.3
     ins = []
     for i in range(n):
-        pre = "u" if rng.random() < 0.75 else rng.choice("ve") + str(rng.randint(0, 9))
+        x = rng.random()
+        pre = "u" if x < 0.6 else "w" if x < 0.75 else rng.choice("ve") + str(rng.randint(0, 9))
         ins.append([pre, "n" if plain else rng.choice(CANCS)])
     ops = []
     order = list(range(n))
@@ -429,17 +615,25 @@ def _random_case(rng, nmax=12):
     for _ in range(rng.choice([0, 0, 1, 1, 2, 3])):
         extra = rng.choice(["C", "C", f"I{rng.randrange(n)}", f"F{rng.randrange(n)}{rng.choice('ve')}{rng.randint(0, 9)}"])
         ops.insert(rng.randint(0, len(ops)), extra)
-    c = {"kind": kind, "inputs": ins, "ops": ops, "obs": rng.choice(["early", "late"])}
+    seq = rng.choice(SEQS[kind] + ["list"])
+    if seq in ("list", "view") and rng.random() < 0.5:
+        for _ in range(rng.choice([1, 1, 2])):
+            ops.insert(rng.randint(0, len(ops)), rng.choice(MUTS))
+    c = {"kind": kind, "inputs": ins, "ops": ops, "obs": rng.choice(["early", "late"]), "seq": seq}
+    if rng.random() < 0.1:
+        c["dbg"] = 1
     if kind == "dl":
         c["flags"] = "".join(rng.choice("01") for _ in range(3))
+        c["call"] = rng.choice(CALLS)
     elif kind == "gather":
         c["flags"] = rng.choice("01")
+        c["call"] = rng.choice(CALLS)
     return c
 
 
 def generate(rng, tier):
     quick = tier == "quick"
-    yield from _exhaustive(3 if quick else 4, 3 if quick else 5)
+    yield from _exhaustive(3 if quick else 4, 3 if quick else 5, 3)
     yield from _cancel_everywhere(2 if quick else 3)
     for _ in range(2500 if quick else 40000):
         yield _random_case(rng)
@@ -456,7 +650,7 @@ def search(rng, tier, disagreeing):
 def _reindex(ops, drop):
     out = []
     for op in ops:
-        if op == "C":
+        if op == "C" or op[0] == "M":
             out.append(op)
             continue
         m = re.match(r"^([FI])(\d+)(.*)$", op)
@@ -479,3 +673,9 @@ def shrink(c):
             yield dict(c, inputs=ins[:i] + [[pre, "n"]] + ins[i + 1:])
         if pre != "u":
             yield dict(c, inputs=ins[:i] + [["u", canc]] + ins[i + 1:])
+    if c.get("dbg"):
+        yield {k: v for k, v in c.items() if k != "dbg"}
+    if c.get("seq", "list") != "list" and not any(op[0] == "M" for op in ops):
+        yield dict(c, seq="list")
+    if c.get("call", "kw") != "kw":
+        yield dict(c, call="kw")
